@@ -195,7 +195,8 @@ def one(ctx, desc, kw, stream):
     place = desc.get("_place")
     # ---- oracle: outcome class
     if cls not in ("ok", "RuntimeError", "ValueError(unstable)"):
-        ctx.oracle(desc, "exception_class", "solve", {"cls": cls}, {"exception": repr(err[1]), "solve_kw": kw})
+        ctx.oracle(desc, "exception_class", "solve", {"cls": cls, "empty_component_name": any(c["name"] == "" for c in desc["comps"])},
+                   {"exception": repr(err[1]), "solve_kw": kw})
     if stream in ("modest", "stepdown") and cls != "ok" and not kw:
         # the clause is conditional: "whenever a steady state with modest drops EXISTS".  Existence is decided by an independent
         # route - damped iteration of the model's sweep map (driver `relax`) - and by looking at the drops of what it finds.
